@@ -37,6 +37,7 @@ func (tc *treeCtx) parseEntry(p []byte) {
 		return
 	}
 	tc.seenP[string(p)] = true
+	noteDoc("c09-tree-plaintext", p)
 	var doc *etree.Document
 	err := saml2.VerifMaybeDeflate(p, 0, func(x []byte) error {
 		doc = etree.NewDocument()
